@@ -14,6 +14,7 @@
 #include "colvarbias.h"
 #include "colvarscript.h"
 #include "colvarbias_meta.h"
+#include "colvarbias_abf.h"
 #include "colvarcomp.h"
 #include "colvaratoms.h"
 #include "colvargrid.h"
@@ -196,6 +197,10 @@ struct colvars_verif_access {
   static std::list<colvarbias_meta::hill>::iterator meta_new_hills_begin(colvarbias_meta *b) { return b->new_hills_begin; }
   static std::string const &meta_replica_id(colvarbias_meta *b) { return b->replica_id; }
   static long meta_state_step(colvarbias_meta *b) { return (long)b->state_file_step; }
+  // ABF accumulators and per-bias forces (C04)
+  static colvar_grid_count *abf_samples(colvarbias_abf *b) { return b->samples.get(); }
+  static colvar_grid_gradient *abf_gradients(colvarbias_abf *b) { return b->gradients.get(); }
+  static std::vector<colvarvalue> const &bias_forces(colvarbias *b) { return b->colvar_forces; }
   // extended-Lagrangian coordinate (C17)
   static double ext_x(colvar *c) { return c->x_ext.real_value; }
   static double ext_v(colvar *c) { return c->v_ext.real_value; }
